@@ -267,14 +267,23 @@ Module Witness.
 
   Lemma zero_penalty_block_rejected :
     exists b, build penalize0 = Done b /\ process penalize0 id_sched (fun _ => None) 4%N (b_header _ _ _ b) = Rejected _ _.
-  Proof. eexists. split; vm_compute; reflexivity. Qed.
+  Proof. eexists. split; [vm_compute; reflexivity|]. vm_compute. reflexivity. Qed.
 
   Lemma positive_penalty_block_accepted :
-    exists b, build penalize1 = Done b /\ no_zero penalize1 = false /              length (h_txs (b_header _ _ _ b)) = 2%nat /\ length (h_slash (b_header _ _ _ b)) = 1%nat /              b_pool _ _ _ b = [ev_future] /              process penalize1 rev_sched memo0 4%N (b_header _ _ _ b) = Accepted _ _ (b_state _ _ _ b) (b_receipts _ _ _ b).
-  Proof. eexists. repeat split; vm_compute; reflexivity. Qed.
+    exists b, build penalize1 = Done b /\ no_zero penalize1 = false /\
+              length (h_txs (b_header _ _ _ b)) = 2%nat /\ length (h_slash (b_header _ _ _ b)) = 1%nat /\
+              b_pool _ _ _ b = [ev_future] /\
+              process penalize1 rev_sched memo0 4%N (b_header _ _ _ b) = Accepted _ _ (b_state _ _ _ b) (b_receipts _ _ _ b).
+  Proof.
+    eexists. split; [vm_compute; reflexivity|].
+    split; [vm_compute; reflexivity|]. split; [vm_compute; reflexivity|].
+    split; [vm_compute; reflexivity|]. split; [vm_compute; reflexivity|].
+    vm_compute. reflexivity.
+  Qed.
 
   Lemma head_moved_block_rejected :
-    exists b, build penalize1 = Done b /              process penalize1 id_sched (fun _ => None) 4%N (b_header _ _ _ b) <>
+    exists b, build penalize1 = Done b /\
+              process penalize1 id_sched (fun _ => None) 4%N (b_header _ _ _ b) <>
               process penalize1 id_sched (fun _ => None) 5%N (b_header _ _ _ b).
   Proof. eexists. split; [vm_compute; reflexivity|]. vm_compute. discriminate. Qed.
 End Witness.
